@@ -384,8 +384,10 @@ def namespace():
     import statham.schema.validation as Vv
     from statham.schema import exceptions, property as prop, constants
     from statham.schema.elements import properties as P, items as I, meta
+    from statham.schema import helpers, parser
+    from statham.serializers import orderer
     ns = {k: v for k, v in globals().items() if callable(v) and not k.startswith("_")}
-    for mod in (E, Vv, exceptions, prop, constants, P, I, meta):
+    for mod in (E, Vv, exceptions, prop, constants, P, I, meta, helpers, parser, orderer):
         for k, v in vars(mod).items():
             if isinstance(v, type):
                 ns.setdefault(k, v)
